@@ -81,6 +81,17 @@ def history_fn(hist, bs, rate, nb, opts):
 
                 def reader_for(k, m):
                     return objs.get(ROLE.get(m.name.replace('_2d', ''), 'self'), emu)
+            elif config == 'two-files':
+                # another file with the very same layout and dimensions is read first; the observed reader is on OUR file
+                import copy
+                T2 = copy.copy(T)
+                T2.fid = 'other'
+                st2 = make_store(T2, 'other.sgz')
+                ra = R.SgzReader(shenv.ShimFile(st2), **kw)
+                rb = R.SgzReader(shenv.ShimFile(st), **kw)
+
+                def reader_for(k, m):
+                    return rb if k == len(ms) - 1 else ra
             elif config in ('two', 'two-close'):
                 ra = R.SgzReader(shenv.ShimFile(st), **kw)
                 rb = R.SgzReader(shenv.ShimFile(st), **kw)
@@ -97,13 +108,16 @@ def history_fn(hist, bs, rate, nb, opts):
         for k, m in enumerate(ms):
             reader_for(k, m)._verif_stored = tuple(stored)
         # earlier operations
+        kept = None
         for k, m in enumerate(ms[:-1]):
             a = [E.fresh('h%d_%s' % (k, n)) for n in m.argn]
             if not opts.get('wild'):
                 E.assume(m.inr(T, a))
             try:
                 with Quiet():
-                    m.call(reader_for(k, m), a)
+                    r_k = m.call(reader_for(k, m), a)
+                if k == 0 and m.kind == 'voxels' and config != 'two-files' and not opts.get('wild'):
+                    kept = (m, a, r_k)
             except Exception:
                 if not opts.get('wild'):
                     raise Infeasible()      # an in-range call that raises is C02's finding, not a history
@@ -111,6 +125,10 @@ def history_fn(hist, bs, rate, nb, opts):
             with Quiet():
                 ra.close()
         readers.run_method(E, ms[-1], T, reader_for(len(ms) - 1, ms[-1]), 'in')
+        if kept is not None and opts.get('check_kept', True):
+            # the array returned by the FIRST operation, still held by the caller, must not have changed
+            m0, a0, r0 = kept
+            readers.verify_result(E, m0, T, a0, r0, '%s[kept after later reads]' % m0.name, qprefix='k')
     return fn
 
 
@@ -158,7 +176,7 @@ def items_for(tier):
     rep_pairs = [('read_inline', 'read_inline'), ('read_subvolume', 'read_subvolume'), ('get_trace', 'get_trace'),
                  ('read_zslice', 'read_crossline'), ('gen_trace_header', 'get_trace'), ('get_trace', 'gen_trace_header'),
                  ('get_tracefield_values_1', 'gen_trace_header_all')]
-    for config in ('two', 'two-close', 'emu'):
+    for config in ('two', 'two-close', 'emu', 'two-files'):
         for a, b in rep_pairs:
             items.append(mk_item([a, b], (4, 4, 256), 8, (2, 2, 2), tier, dict(dimcap=1, config=config)))
     for a, b in rep_pairs[:5]:
@@ -169,6 +187,9 @@ def items_for(tier):
     for t3 in triples:
         for config in ('same', 'emu'):
             items.append(mk_item(list(t3), (4, 4, 256), 8, (2, 2, 2), tier, dict(dimcap=1, config=config)))
+    for ccs in (None, 1):
+        items.append(mk_item(['get_trace', 'get_trace', 'get_trace'], (8, 8, 64), 8, (2, 2, 1), tier, dict(dimcap=1, chunk_cache_size=ccs)))
+    items.append(mk_item(['get_trace', 'read_subvolume', 'get_trace'], (8, 8, 64), 8, (2, 2, 1), tier, dict(dimcap=1)))
     # 2D
     for a, b in [('read_subplane', 'read_subplane'), ('get_trace_2d', 'get_trace_2d'), ('read_subplane', 'get_trace_2d'),
                  ('gen_trace_header_2d', 'get_trace_2d'), ('get_trace_2d', 'gen_trace_header_2d')]:
